@@ -32,15 +32,39 @@ func FilterFloat1(m modeling.Mesh, attribute string, filter func(v float64) bool
 		}
 	}
 
-	indices := m.Indices()
-	finalIndices := make([]int, 0)
-	for i := 0; i < indices.Len(); i++ {
-		if _, ok := verticeToKeep[indices.At(i)]; ok {
-			finalIndices = append(finalIndices, indices.At(i))
-		}
-	}
+	finalIndices := filterPrimitives(m, func(vertex int) bool {
+		_, ok := verticeToKeep[vertex]
+		return ok
+	})
 
 	return RemovedUnreferencedVertices(m.SetIndices(finalIndices))
+}
+
+// filterPrimitives returns the indices of the primitives whose every corner
+// refers to a vertex to keep. Primitives are kept or dropped whole, so the
+// number of indices left still fits the topology of the mesh.
+func filterPrimitives(m modeling.Mesh, keepVertex func(vertex int) bool) []int {
+	indices := m.Indices()
+	size := m.Topology().IndexSize()
+	finalIndices := make([]int, 0)
+	for i := 0; i+size <= indices.Len(); i += size {
+		keep := true
+		for c := 0; c < size; c++ {
+			if !keepVertex(indices.At(i + c)) {
+				keep = false
+				break
+			}
+		}
+
+		if !keep {
+			continue
+		}
+
+		for c := 0; c < size; c++ {
+			finalIndices = append(finalIndices, indices.At(i+c))
+		}
+	}
+	return finalIndices
 }
 
 // FLOAT 2 ====================================================================
@@ -70,13 +94,10 @@ func FilterFloat2(m modeling.Mesh, attribute string, filter func(v vector2.Float
 		}
 	}
 
-	indices := m.Indices()
-	finalIndices := make([]int, 0)
-	for i := 0; i < indices.Len(); i++ {
-		if _, ok := verticeToKeep[indices.At(i)]; ok {
-			finalIndices = append(finalIndices, indices.At(i))
-		}
-	}
+	finalIndices := filterPrimitives(m, func(vertex int) bool {
+		_, ok := verticeToKeep[vertex]
+		return ok
+	})
 
 	return RemovedUnreferencedVertices(m.SetIndices(finalIndices))
 }
@@ -108,13 +129,9 @@ func FilterFloat3(m modeling.Mesh, attribute string, filter func(v vector3.Float
 		}
 	}
 
-	indices := m.Indices()
-	finalIndices := make([]int, 0)
-	for i := 0; i < indices.Len(); i++ {
-		if verticeToKeep[indices.At(i)] {
-			finalIndices = append(finalIndices, indices.At(i))
-		}
-	}
+	finalIndices := filterPrimitives(m, func(vertex int) bool {
+		return verticeToKeep[vertex]
+	})
 
 	return RemovedUnreferencedVertices(m.SetIndices(finalIndices))
 }
@@ -146,13 +163,10 @@ func FilterFloat4(m modeling.Mesh, attribute string, filter func(v vector4.Float
 		}
 	}
 
-	indices := m.Indices()
-	finalIndices := make([]int, 0)
-	for i := 0; i < indices.Len(); i++ {
-		if _, ok := verticeToKeep[indices.At(i)]; ok {
-			finalIndices = append(finalIndices, indices.At(i))
-		}
-	}
+	finalIndices := filterPrimitives(m, func(vertex int) bool {
+		_, ok := verticeToKeep[vertex]
+		return ok
+	})
 
 	return RemovedUnreferencedVertices(m.SetIndices(finalIndices))
 }
